@@ -114,7 +114,7 @@ fn apply(style: ProgressStyle, b: &Build) -> Result<ProgressStyle, String> {
 fn run_case(seed: u64, idx: u64) -> CaseOut {
     let mut rng = Rng::derive(seed, 14, idx);
     let replay = format!("{seed}:{idx}");
-    let base = rng.pick(&["{spinner} {msg} {bar:12} {pos}/{len}", "{spinner}{wide_bar}", "{bar:7}{spinner}{wide_msg}", "{msg}\n{bar:7} {pos}/{len}{spinner}"]).to_string();
+    let base = rng.pick(&["{spinner} {msg} {bar:12} {pos}/{len}", "{spinner}{wide_bar}", "{bar:7}{spinner}{wide_msg}", "{msg}\n{bar:7} {pos}/{len}{spinner}", "{\tx {pos}{spinner}", "a\tb{ c {pos} {bar:5}"]).to_string();
     let n_builds = rng.range(1, 3);
     let builds: Vec<Build> = (0..n_builds).map(|_| gen_build(&mut rng)).collect();
     let mut co = CaseOut::held(fnv1a(format!("{base}{builds:?}").as_bytes()), true);
